@@ -109,3 +109,98 @@ def descriptor_findings(model):
                             f'`{attr} = {ast.unparse(v)[:40]}`: {v.func.id}.__set__ stores the value on the descriptor itself (`{ast.unparse(site)}`, line '
                             f'{site.lineno}), which is one object for the whole class: every {cname} shares the value assigned last'))
     return out
+
+
+def mutable_default_findings(model):
+    """[(qualname, parameter, module, line, detail)]: a parameter whose default is a mutable container (list / dict / set / deque ...)
+    that the function mutates or hands out: the default is ONE object made when the function is defined, so what one call leaves
+    in it is still there in the next call, on any object"""
+    out = []
+    units = [(fname, mod, fn) for fname, (mod, fn) in model.functions.items()]
+    for cname, ci in model.classes.items():
+        for mem in ci.all_members():
+            units.append((mem.qualname, ci.module, mem.node))
+    MUT = ('append', 'extend', 'insert', 'pop', 'popleft', 'appendleft', 'remove', 'clear', 'update', 'add', 'setdefault', 'sort', 'reverse', 'discard')
+    for qual, mod, fn in units:
+        args = fn.args.args + fn.args.kwonlyargs
+        defaults = [None] * (len(fn.args.args) - len(fn.args.defaults)) + list(fn.args.defaults) + list(fn.args.kw_defaults)
+        for a, d in zip(args, defaults):
+            if d is None:
+                continue
+            mutable = isinstance(d, (ast.List, ast.Dict, ast.Set)) or (
+                isinstance(d, ast.Call) and isinstance(d.func, (ast.Name, ast.Attribute))
+                and (d.func.id if isinstance(d.func, ast.Name) else d.func.attr) in ('list', 'dict', 'set', 'deque', 'defaultdict', 'OrderedDict', 'Counter', 'bytearray'))
+            if not mutable:
+                continue
+            touched = None
+            for x in ast.walk(fn):
+                if isinstance(x, ast.Call) and isinstance(x.func, ast.Attribute) and isinstance(x.func.value, ast.Name) \
+                        and x.func.value.id == a.arg and x.func.attr in MUT:
+                    touched = x
+                if isinstance(x, ast.Subscript) and isinstance(x.ctx, (ast.Store, ast.Del)) and isinstance(x.value, ast.Name) and x.value.id == a.arg:
+                    touched = x
+                if isinstance(x, ast.Return) and isinstance(x.value, ast.Name) and x.value.id == a.arg:
+                    touched = touched or x
+                if isinstance(x, ast.Assign) and isinstance(x.value, ast.Name) and x.value.id == a.arg \
+                        and any(isinstance(t, ast.Attribute) for t in x.targets):
+                    touched = touched or x
+            if touched is not None:
+                out.append((qual, a.arg, mod, d.lineno,
+                            f'parameter `{a.arg}={ast.unparse(d)[:30]}` is a mutable default that the function changes or hands out (line {touched.lineno}): '
+                            f'the default is one object shared by every call - what a call leaves in it (e.g. after an early exit) is seen by the '
+                            f'next call, on any object'))
+    return out
+
+
+def late_binding_findings(model):
+    """[(module, line, detail)]: a lambda (or nested def) created inside a comprehension or a loop that reads the iteration variable
+    without binding it (`{k: lambda x: f(x, v) for k, v in ...}`): every closure sees the LAST value of the variable when it is called"""
+    out = []
+    for mod, tree in model.trees.items():
+        parents = {}
+        for p in ast.walk(tree):
+            for ch in ast.iter_child_nodes(p):
+                parents[id(ch)] = p
+        for lam in ast.walk(tree):
+            if not isinstance(lam, (ast.Lambda,)):
+                continue
+            bound = {a.arg for a in lam.args.args + lam.args.kwonlyargs}
+            free = {n.id for n in ast.walk(lam.body) if isinstance(n, ast.Name) and isinstance(n.ctx, ast.Load)} - bound
+            p = parents.get(id(lam))
+            while p is not None:
+                targets = set()
+                stored = False
+                if isinstance(p, (ast.ListComp, ast.DictComp, ast.SetComp)):
+                    for g in p.generators:
+                        targets |= {n.id for n in ast.walk(g.target) if isinstance(n, ast.Name)}
+                    stored = True
+                elif isinstance(p, ast.For):
+                    targets = {n.id for n in ast.walk(p.target) if isinstance(n, ast.Name)}
+                    stored = True
+                hit = sorted(free & targets)
+                if stored and hit:
+                    out.append((mod, lam.lineno, f'the lambda at line {lam.lineno} reads the iteration variable {hit} of the enclosing '
+                                                 f'{"comprehension" if not isinstance(p, ast.For) else "loop"} when it is CALLED, not when it is created: every '
+                                                 f'function built there uses the last value ({hit[0]}=... of the final iteration)'))
+                    break
+                p = parents.get(id(p))
+    return out
+
+
+def value_order_findings(model, cls):
+    """[(qualname, module, line, detail)]: sort / sorted inside the methods of `cls`: element quantities combined by position after a
+    sort are paired by VALUE, not by place in the chain"""
+    out = []
+    ci = model.classes.get(cls)
+    for mem in (ci.all_members() if ci else ()):
+        for x in ast.walk(mem.node):
+            name = None
+            if isinstance(x, ast.Call) and isinstance(x.func, ast.Attribute) and x.func.attr == 'sort':
+                name = f'{ast.unparse(x.func.value)[:30]}.sort(...)'
+            if isinstance(x, ast.Call) and isinstance(x.func, ast.Name) and x.func.id == 'sorted':
+                name = ast.unparse(x)[:40]
+            if name:
+                out.append((mem.qualname, ci.module, x.lineno,
+                            f'`{name}` orders values by magnitude: what is combined with them by position afterwards belongs to the element at '
+                            f'that place of the chain only when the values happen to be monotone along it'))
+    return out
